@@ -34,7 +34,7 @@ class Counter:
 def make_custom(env, counter):
     import ovld
     from ovld import class_check, parametrized_class_check
-    from ovld.mro import typeorder
+    from vlib.api import typeorder
 
     K = {n: env[n] for n in KN}
 
